@@ -664,7 +664,14 @@ func (w *ucWorld) runAndCompare() {
 	pt := input.InitPt(&input.Point{}, "m", nil, fields, time.Time{})
 
 	ucTrace = nil
-	err := main.Run(pt, nil)
+	// a cancellation signal that never fires must not change anything (the host passes one
+	// in production; nil is only what tests pass)
+	var idle runtime.Signal
+	if verifnd.Bool() {
+		idle = vuNever{}
+		verifnd.Reach("with-idle-signal")
+	}
+	err := main.Run(pt, idle)
 	if ucDebug != nil {
 		ucDebug(w, err)
 	}
@@ -897,3 +904,8 @@ func VerifUseScenarios() {
 	w.keys = append(w.keys, ucVar{"n", ucSmall(0, 2)}, ucVar{"d", ucSmall(0, 1)}, ucVar{"t", ucSmall(0, 1)})
 	w.runAndCompare()
 }
+
+// vuNever: a cancellation signal that never fires.
+type vuNever struct{}
+
+func (vuNever) ExitSignal() bool { return false }
